@@ -33,7 +33,7 @@ def gen_request(rng):
         target = rng.choice([b"host:443", b"1.2.3.4:80", b"h/../x:1"])
     hdrs = []
     for _ in range(rng.randint(0, 4)):
-        name = rng.choice([b"Host", b"host", b"Content-Length", b"X-A", b"Connection", b"range", b" Padded ", b"A\tB"])
+        name = rng.choice([b"Host", b"host", b"Content-Length", b"X-A", b"Connection", b"range", b" Padded ", b"A\tB", b"X-Zone", b"X-Content-SIZE", b"ABCDEFGHIJKLMNOPQRSTUVWXYZ", b"@[`{-Az"])
         val = rng.choice([b"example.com", b" close ", b"bytes=0-9", b"", b"a:b:c", b"\tv\t", b"x  y"])
         sep = rng.choice([b":", b": ", b" : ", b":\t"])
         hdrs.append(name + sep + val)
